@@ -17,6 +17,11 @@ logger = logging.getLogger('IsoQuant')
 
 
 def merge_file_list(fname, label, chr_ids):
+    # per-chromosome files live next to the merged one and are named <label>_<chr_id><rest of the name>;
+    # only the leading label of the file name is substituted: the rest of the name may contain it as well
+    dir_name, base_name = os.path.split(fname)
+    if base_name.startswith(label):
+        return [os.path.join(dir_name, f"{label}_{chr_id}" + base_name[len(label):]) for chr_id in chr_ids]
     return [rreplace(fname, label, f"{label}_{chr_id}") for chr_id in chr_ids]
 
 
